@@ -127,6 +127,7 @@ type proc struct {
 	done    chan string // result
 	dead    bool
 	started bool
+	cancel  context.CancelFunc // cancels the context of this process's store
 }
 
 // gate announces the operation and waits for the controller's verdict.
@@ -187,8 +188,14 @@ func (b *gatedBucket) Put(ctx context.Context, path string, opts ...storage.PutO
 	if isMarker(path) {
 		name = "yopen"
 	}
-	if b.p.gate(name) == "fail" {
+	switch b.p.gate(name) {
+	case "fail":
 		return nil, fmt.Errorf("put %s: %w", path, errInjected)
+	case "cancel":
+		// the context of this store is cancelled now; the operation at hand goes on
+		if b.p.cancel != nil {
+			b.p.cancel()
+		}
 	}
 	w, err := b.ReadWriteBucket.Put(ctx, path, opts...)
 	if err != nil {
@@ -399,7 +406,10 @@ func (w *world) run(ctx context.Context, p *proc) {
 		if w.cfg.Layout == "tar" {
 			p.gate("begin")
 		}
-		err := s.PutModuleDatas(ctx, []bufmodule.ModuleData{w.data})
+		pctx, cancel := context.WithCancel(ctx)
+		p.cancel = cancel
+		defer cancel()
+		err := s.PutModuleDatas(pctx, []bufmodule.ModuleData{w.data})
 		if w.cfg.Layout == "tar" {
 			p.gate("return")
 		}
@@ -692,7 +702,7 @@ func replayTour(ctx context.Context, cfg config, dir string, tour []edge) (*tour
 			verdict := "ok"
 			if o.Op == "crash" {
 				verdict = "crash"
-			} else if o.Outcome == "fail" || o.Outcome == "closefail" {
+			} else if o.Outcome == "fail" || o.Outcome == "closefail" || o.Outcome == "cancel" {
 				verdict = o.Outcome
 			}
 			p.proceed <- verdict
